@@ -19,6 +19,21 @@ class Ret:
     return '<Ret %s %d>' % (self.sel, self.n)
 
 
+class AnyEq:
+  """compares equal to everything (like unittest.mock.ANY)"""
+
+  def __eq__(self, other):
+    return True
+
+  def __ne__(self, other):
+    return False
+
+  __hash__ = object.__hash__
+
+  def __deepcopy__(self, memo):
+    return self
+
+
 class Opaque:
   def __init__(self, id_):
     self.id = id_
@@ -107,7 +122,15 @@ def sig_coq(sg):
       C.cbool(sg['varkw'])))
 
 
+def first_param(c):
+  shape = c.get('shape', 'fn')
+  return None if shape == 'fn' else ('self' if shape.endswith('init') else 'cls')
+
+
 def cfg_coq(c):
+  fp = first_param(c)
+  if fp:
+    c = dict(c, sig=dict(c['sig'], args=[fp] + list(c['sig']['args'])), shape='fn')
   return ('{| c_sel := %s; c_kind := KProbe; c_sig := %s; c_allow := %s; c_deny := %s; c_method := false |}' % (
       C.cstr(c['sel']), sig_coq(c['sig']), C.cstrs(c.get('allow') or []), C.cstrs(c.get('deny') or [])))
 
@@ -126,8 +149,13 @@ def kwargs_coq(kw):
   return C.clist(['(%s, %s)' % (C.cstr(k), val_coq(v)) for k, v in kw])
 
 
+SHAPES = {}
+
+
 def op_coq(op):
   k = op[0]
+  if k in ('call', 'callvia') and SHAPES.get(op[1].split('/')[-1], 'fn') != 'fn':
+    op = [k, op[1], [['obj', 'self']] + list(op[2]), op[3]]
   if k == 'bind':
     return '(OBind %s %s)' % (C.cstr(op[1]), val_coq(op[2]))
   if k == 'pbind':
@@ -181,6 +209,12 @@ def ops_coq(ops):
 
 
 def case_coq(case):
+  SHAPES.clear()
+  for c in case['regs']:
+    SHAPES[c['sel']] = c.get('shape', 'fn')
+  for o in flatten_ops(case['ops']):
+    if o[0] == 'register':
+      SHAPES[o[1]['sel']] = o[1].get('shape', 'fn')
   return '(%s, %s)' % (C.clist([cfg_coq(c) for c in case['regs']]), ops_coq(case['ops']))
 
 
@@ -222,8 +256,12 @@ class Machine:
       return T('Unk', x.selector, bool(x.evaluate))
     if isinstance(x, Ret):
       return T('Ret', x.sel, x.n)
+    if isinstance(x, AnyEq):
+      return T('Obj', 'ANY')
     if isinstance(x, Opaque):
       return T('Obj', x.id)
+    if hasattr(x, '_gin_ret'):
+      return self.canon(x._gin_ret)  # pylint: disable=protected-access
     if callable(x):
       c = cfg._inverse_lookup(x, allow_decorators=True)  # pylint: disable=protected-access
       if c is not None:
@@ -251,23 +289,24 @@ class Machine:
     if t == 'req':
       return self.gin.REQUIRED
     if t == 'obj':
-      return Opaque(v[1])
+      return AnyEq() if v[1] == 'ANY' else Opaque(v[1])
     raise ValueError(v)
 
   # -- probes
   def make_probe(self, c):
     sg, sel = c['sig'], c['sel']
+    shape = c.get('shape', 'fn')
     name = sel.split('.')[-1]
-    env = {'__rec': self._record, '__sel': sel}
+    env = {'gv_rec': self._record, 'gv_sel': sel}
     dflts = []
     params = []
     nd = len(sg['defaults'])
     na = len(sg['args'])
     for i, a in enumerate(sg['args']):
       if i >= na - nd:
-        env['__d%d' % i] = self.plain(sg['defaults'][i - (na - nd)])
-        dflts.append(env['__d%d' % i])
-        params.append('%s=__d%d' % (a, i))
+        env['gv_d%d' % i] = self.plain(sg['defaults'][i - (na - nd)])
+        dflts.append(env['gv_d%d' % i])
+        params.append('%s=gv_d%d' % (a, i))
       else:
         params.append(a)
     if sg['varargs']:
@@ -278,13 +317,20 @@ class Machine:
       if d is None:
         params.append(n)
       else:
-        env['__k%d' % j] = self.plain(d)
-        dflts.append(env['__k%d' % j])
-        params.append('%s=__k%d' % (n, j))
+        env['gv_k%d' % j] = self.plain(d)
+        dflts.append(env['gv_k%d' % j])
+        params.append('%s=gv_k%d' % (n, j))
     if sg['varkw']:
       params.append('**_kw')
-    src = 'def %s(%s):\n  return __rec(__sel, locals(), __dflts)\n' % (name, ', '.join(params))
-    env['__dflts'] = dflts
+    env['gv_dflts'] = dflts
+    if shape == 'fn':
+      src = 'def %s(%s):\n  return gv_rec(gv_sel, locals(), gv_dflts)\n' % (name, ', '.join(params))
+    elif shape.endswith('init'):
+      src = ('class %s(object):\n  def __init__(%s):\n    self._gin_ret = gv_rec(gv_sel, locals(), gv_dflts)\n' %
+             (name, ', '.join(['self'] + params)))
+    else:   # constructed by __new__ only
+      src = ('class %s(object):\n  def __new__(%s):\n    gv_l = dict(locals())\n    gv_o = object.__new__(cls)\n'
+             '    gv_o._gin_ret = gv_rec(gv_sel, gv_l, gv_dflts)\n    return gv_o\n' % (name, ', '.join(['cls'] + params)))
     exec(compile(src, '<probe %s>' % sel, 'exec'), env)  # pylint: disable=exec-used
     fn = env[name]
     fn.__module__ = None
@@ -306,6 +352,9 @@ class Machine:
   def _record(self, sel, loc, dflts=()):
     env = []
     for k, v in loc.items():
+      if k in ('self', 'cls'):
+        env.append([k, T('Obj', 'self')])
+        continue
       if k == '_va':
         env.append(['*', self.canon(v)])
       elif k == '_kw':
@@ -323,10 +372,14 @@ class Machine:
 
   def register(self, c):
     fn, name = self.make_probe(c)
+    shape = c.get('shape', 'fn')
     parts = c['sel'].split('.')
     module = '.'.join(parts[:-1]) or None
-    w = self.gin.configurable(name, module=module, allowlist=c.get('allow') or None,
-                              denylist=c.get('deny') or None)(fn)
+    kw = dict(module=module, allowlist=c.get('allow') or None, denylist=c.get('deny') or None)
+    if shape.startswith('ext'):
+      w = self.gin.external_configurable(fn, name, **kw)
+    else:
+      w = self.gin.configurable(name, **kw)(fn)
     self.wrappers[c['sel']] = w
     return w
 
@@ -557,13 +610,18 @@ def sig_names(sg):
   return list(sg['args']) + [n for n, _ in sg['kwonly']]
 
 
-def gen_regs(rng, n=None, lists=0.3, allow_req=True, rich=True, sels=None):
+SHAPE_CHOICES = ['fn', 'fn', 'fn', 'cls_init', 'cls_new', 'ext_init', 'ext_new']
+
+
+def gen_regs(rng, n=None, lists=0.3, allow_req=True, rich=True, sels=None, shapes=False):
   sels = rng.sample(sels or SELS, n or rng.randint(1, 4))
   regs = []
   for sel in sels:
     sg = gen_sig(rng, allow_req, rich)
     names = sig_names(sg)
     c = {'sel': sel, 'sig': sg, 'allow': [], 'deny': []}
+    if shapes:
+      c['shape'] = rng.choice(SHAPE_CHOICES)
     if names and rng.random() < lists:
       sub = rng.sample(names, rng.randint(1, len(names)))
       c['allow' if rng.random() < 0.5 else 'deny'] = sub
